@@ -213,6 +213,19 @@ open_dataset(const dcfg *c)
         if (SDsetfillvalue(sds, A.fill) == FAIL)
             return -2;
     }
+    if (c->layout == L_NBIT) {
+        /* the fill pass goes through the n-bit element like any other value: never-written cells read as the
+           documented projection of the fill value (the 7-bit field, rest zero or sign-extended) */
+        for (int b = 1; b < c->esize; b++)
+            A.fill[b] = 0;
+        A.fill[0] &= 0x7f;
+        if (c->cparam == 1) {
+            int16 v = (int16)A.fill[0];
+            if (v & 0x40)
+                v = (int16)(v - 128);
+            memcpy(A.fill, &v, 2);
+        }
+    }
     HDF_CHUNK_DEF cd;
     comp_info     ci;
     memset(&cd, 0, sizeof cd);
@@ -607,6 +620,8 @@ enum_slabs(int maxstride)
 /* ------------------------------------------------------------------ one configuration: all histories */
 static long g_hist_count;
 
+static int g_midread = -1; /* slab read between the first and the second write of a history (-1: none) */
+
 static int
 run_history(const dcfg *c, const int *w, int nw, int cut, int readall, const char *prefix)
 {
@@ -631,6 +646,15 @@ run_history(const dcfg *c, const int *w, int nw, int cut, int readall, const cha
     g_hist_count++;
     int bad = 0;
     for (int i = 0; i < nw && !bad; i++) {
+        if (i == 1 && g_midread >= 0) {
+            /* a read through the same id between two writes (read -> write switch of the storage layer) */
+            int inside = 1;
+            for (int d = 0; d < c->rank; d++)
+                if (SL[g_midread].start[d] + (SL[g_midread].count[d] - 1) * (SL[g_midread].null_stride ? 1 : SL[g_midread].stride[d]) >= cur_extent(d))
+                    inside = 0;
+            if (inside && (bad = check_read(&SL[g_midread], "between the writes", prefix)) != 0)
+                break;
+        }
         int r = do_write(&SL[w[i]], i + 1, prefix);
         if (r == 1)
             bad = 1;
@@ -676,7 +700,7 @@ run_config(const dcfg *c, const char *prefix, int deep)
     A.c = *c;
     enum_slabs(deep ? 3 : 2);
     int w[3];
-    if (c->layout == L_COMP || c->layout == L_NBIT) {
+    if (c->layout == L_COMP) { /* (n-bit storage has fixed-width cells and no such restriction: it takes the general path) */
         /* the coders' contract: written sequentially from the start, or rewritten in full - so only whole-array writes (both
            spellings), once and twice, across a session cut; every slab is still read */
         int full[2], nf = 0;
@@ -714,7 +738,10 @@ run_config(const dcfg *c, const char *prefix, int deep)
         for (int b = (a * 7) % step; b < NSL; b += step) {
             w[0] = a, w[1] = b;
             int code = a * NSL + b;
-            if (run_history(c, w, 2, code % 3 == 0 ? 1 : 0, code % 11 == 0, prefix))
+            g_midread = (code % 3 != 0 && (code % 2 == 1 || c->layout == L_NBIT)) ? (a * 3 + b + 1) % NSL : -1;
+            int hr    = run_history(c, w, 2, code % 3 == 0 ? 1 : 0, code % 11 == 0, prefix);
+            g_midread = -1;
+            if (hr)
                 return;
         }
     if (c->rank <= 1 || deep) {
